@@ -232,18 +232,19 @@ type rawMode struct {
 // connection without configuring it, registers it and stays silent, never answers at all, or
 // completes the handshake itself with the scripted timeouts in its ConfigureRequest.
 type refuser struct {
-	conn   net.Conn
-	mux    multiplex.Mux
-	rpcs   *ttrpc.Server
-	rpcl   net.Listener
-	rpcc   *ttrpc.Client
-	plugin api.PluginService
-	mode   rawMode
-	regs   atomic.Int32
-	cfgErr atomic.Value // error text of the Configure / Synchronize call, if any
-	done   chan struct{}
-	quit   chan struct{} // closed by close(): releases a silent RegisterPlugin
-	once   sync.Once
+	conn    net.Conn
+	mux     multiplex.Mux
+	rpcs    *ttrpc.Server
+	rpcl    net.Listener
+	rpcc    *ttrpc.Client
+	plugin  api.PluginService
+	mode    rawMode
+	regs    atomic.Int32
+	cfgSent atomic.Bool  // the Configure request has been issued
+	cfgErr  atomic.Value // error text of the Configure / Synchronize call, if any
+	done    chan struct{}
+	quit    chan struct{} // closed by close(): releases a silent RegisterPlugin
+	once    sync.Once
 }
 
 func (r *refuser) RegisterPlugin(context.Context, *api.RegisterPluginRequest) (*api.Empty, error) {
@@ -272,6 +273,7 @@ func (r *refuser) RegisterPlugin(context.Context, *api.RegisterPluginRequest) (*
 func (r *refuser) handshake() {
 	ctx, cancel := context.WithTimeout(context.Background(), 5*time.Second)
 	defer cancel()
+	r.cfgSent.Store(true)
 	_, err := r.plugin.Configure(ctx, &api.ConfigureRequest{
 		RuntimeName:         "verif-raw",
 		RuntimeVersion:      "0",
